@@ -276,19 +276,10 @@ def r3_guards(cx):
     ps = gb.calls(r"PropertySize::<usize>::process$")
     if len(ps) != 1:
         raise AnchorLost("Property::process: PropertySize::<usize>::process sites: %d" % len(ps))
-    src = op_local(ps[0][1]["args"][1])
-    hops = 0
-    while src is not None and hops < 6:
-        ds = [d for d in gb.defs().get(src, []) if d[0] == "stmt"]
-        if len(ds) == 1 and ds[0][3]["rv"]["k"] == "use" and op_local(ds[0][3]["rv"]["op"]) is not None:
-            src = op_local(ds[0][3]["rv"]["op"])
-            hops += 1
-        else:
-            break
-    ds = [d for d in gb.defs().get(src, []) if d[0] == "stmt"] if src is not None else []
-    not_size = [d[3].get("ln") for d in ds if not (d[3]["rv"]["k"] == "use" and "size" in place_fields(op_place(d[3]["rv"]["op"]) or {}))]
-    cx.ob("R3", "R3/array-length-measured", bool(ds) and not not_size, g,
-          "every arm of the array value match feeds the column sizing with `<array>.size` (%d arms; other sources at lines %s)" % (len(ds), not_size), ln=ps[0][1].get("ln"))
+    ao = gb.origins(ps[0][1]["args"][1], through_calls=False)
+    consts = sorted(x[1] for x in ao if x[0] == "const" and isinstance(x[1], int) and not isinstance(x[1], bool))
+    cx.ob("R3", "R3/array-length-measured", ("field", "size") in ao and not consts, g,
+          "the value that sizes the array length column is read from `<array>.size` on every arm of the value match, never a per-variant constant (constants reaching it: %s)" % consts, ln=ps[0][1].get("ln"))
     # 3. ClusterCreator::add_content — evaluated in C01-R2 (same guard), referenced here
     h = F.one(impl_self="ClusterCreator", item="add_content", closure=False)
     c = F.const("cluster::MAX_BLOBS_PER_CLUSTER")
